@@ -12,6 +12,7 @@ package main
 import (
 	"fmt"
 	"go/constant"
+	"go/token"
 	"go/types"
 	"strings"
 
@@ -514,5 +515,281 @@ func rowUsedWhereFound(w *World, wc *wireCtx, r *Report, prop string) {
 	}
 	if n == 0 {
 		r.pass(rule, "checked table lookups found", "", "the generators make no checked lookup whose row they use")
+	}
+}
+
+// C12/diagnostic-at-the-element: "...rejected with a diagnostic naming the offence and the line of the offending declaration". The
+// declarations of a packet are checked in loops (over the parse tree's children, over the collected fields); a diagnostic raised
+// inside such a loop is about the declaration of the current iteration, so the position it records has to come from the iteration:
+// the Line of the SyntaxError it builds - or, when it is raised through a helper, one of the helper's non-text arguments - derives
+// from the loop's element. A position taken from the enclosing construct (`reportAt(ctx, ..)` where `fctx` was meant) reports every
+// offence in a multi-line inline object at the object's first line.
+func diagnosticAtTheElement(w *World, r *Report, prop string) {
+	rule := prop + "/diagnostic-at-the-element"
+	n := 0
+	for _, fn := range parsePhaseFuncs(w) {
+		if fn.Pkg != w.Parser {
+			continue
+		}
+		cnt := 0
+		for _, h := range fn.Blocks {
+			isHeader := false
+			for _, p := range h.Preds {
+				if h.Dominates(p) {
+					isHeader = true
+				}
+			}
+			if !isHeader {
+				continue
+			}
+			loop := naturalLoop(h)
+			// the loop's elements: what is read at an index that changes with the iteration, or handed out by a range
+			elems := map[ssa.Value]bool{}
+			for b := range loop {
+				for _, ins := range b.Instrs {
+					switch x := ins.(type) {
+					case *ssa.UnOp:
+						if ia, ok := x.X.(*ssa.IndexAddr); ok && x.Op == token.MUL {
+							if in, ok := ia.Index.(ssa.Instruction); ok && loop[in.Block()] {
+								elems[x] = true
+							}
+						}
+					case *ssa.Extract:
+						if _, ok := x.Tuple.(*ssa.Next); ok {
+							elems[x] = true
+						}
+					}
+				}
+			}
+			if len(elems) == 0 {
+				continue
+			}
+			var variant func(v ssa.Value, depth int, seen map[ssa.Value]bool) bool
+			variant = func(v ssa.Value, depth int, seen map[ssa.Value]bool) bool {
+				if v == nil || depth > 12 || seen[v] {
+					return false
+				}
+				seen[v] = true
+				if elems[v] {
+					return true
+				}
+				// a variable of the iteration kept in a cell (a closure captures it): what was stored
+				if ld, ok := v.(*ssa.UnOp); ok && ld.Op == token.MUL {
+					if al, ok := ld.X.(*ssa.Alloc); ok && loop[al.Block()] {
+						if st, esc := cellStores(al); !esc {
+							for _, s := range st {
+								if variant(s.Val, depth+1, seen) {
+									return true
+								}
+							}
+						}
+					}
+				}
+				// a local of the iteration (the element copied into a variable): what is stored into it, whole or member by member
+				if al, ok := v.(*ssa.Alloc); ok && loop[al.Block()] && al.Referrers() != nil {
+					for _, ref := range *al.Referrers() {
+						if st, ok := ref.(*ssa.Store); ok && st.Addr == ssa.Value(al) && variant(st.Val, depth+1, seen) {
+							return true
+						}
+					}
+				}
+				in, ok := v.(ssa.Instruction)
+				if !ok {
+					return false
+				}
+				for _, op := range in.Operands(nil) {
+					if *op != nil && variant(*op, depth+1, seen) {
+						return true
+					}
+				}
+				return false
+			}
+			for b := range loop {
+				// innermost loop only: a block of a nested loop is judged with that loop
+				inner := false
+				for _, h2 := range fn.Blocks {
+					if h2 == h || !loop[h2] {
+						continue
+					}
+					back := false
+					for _, p := range h2.Preds {
+						if h2.Dominates(p) {
+							back = true
+						}
+					}
+					if back && naturalLoop(h2)[b] {
+						inner = true
+					}
+				}
+				if inner {
+					continue
+				}
+				for _, ins := range b.Instrs {
+					if !isAddSyntaxError(ins) {
+						continue
+					}
+					c := ins.(ssa.CallInstruction)
+					var carriers []ssa.Value
+					if f := c.Common().StaticCallee(); f != nil && f.Name() == "AddSyntaxError" {
+						// the literal handed over: its Line
+						if len(c.Common().Args) >= 2 {
+							if al, ok := stripIdentity(c.Common().Args[1]).(*ssa.Alloc); ok && al.Referrers() != nil {
+								for _, ref := range *al.Referrers() {
+									fa, ok := ref.(*ssa.FieldAddr)
+									if !ok || fa.Referrers() == nil {
+										continue
+									}
+									if _, fname, _, _ := fieldOf(fa); fname != "Line" {
+										continue
+									}
+									for _, r2 := range *fa.Referrers() {
+										if st, ok := r2.(*ssa.Store); ok && st.Addr == ssa.Value(fa) {
+											carriers = append(carriers, st.Val)
+										}
+									}
+								}
+							}
+						}
+					} else {
+						args := c.Common().Args
+						if g := c.Common().StaticCallee(); g != nil && g.Signature.Recv() != nil && len(args) > 0 {
+							args = args[1:]
+						}
+						for _, a := range args {
+							if !isStringType(a.Type()) {
+								carriers = append(carriers, a)
+							}
+						}
+					}
+					if len(carriers) == 0 {
+						continue
+					}
+					n++
+					cnt++
+					key := fmt.Sprintf("%s: diagnostic #%d raised inside a loop over declarations is positioned at the declaration of the iteration", fnKey(fn), cnt)
+					ok := false
+					for _, cv := range carriers {
+						if variant(cv, 0, map[ssa.Value]bool{}) {
+							ok = true
+						}
+					}
+					if ok {
+						r.pass(rule, key, w.instrPos(ins), "")
+					} else {
+						r.fail(rule, key, w.instrPos(ins), "the position this diagnostic records does not depend on the loop's element (it is taken from something fixed before the loop - the enclosing construct): every offence found in the loop is reported at that one line, not at the line of the offending declaration")
+					}
+				}
+			}
+		}
+	}
+	if n == 0 {
+		r.pass(rule, "diagnostics inside loops found", "internal/parser/packet_dsl_parser.go", "no diagnostic is raised inside a loop over declarations")
+	}
+}
+
+// <prop>/visitor-keeps-no-packet-state: the model visitor is re-entered - an inline object is visited while the packet that contains it
+// is still being visited. A member of the visitor that a visiting routine assigns (a table "of the packet being visited") is
+// replaced by the nested visit and not given back, unless the routine restores what it found. Decided: no routine of the visitor
+// that runs during the tree walk stores into a member of the visitor itself, except to restore a value it loaded from that member
+// before.
+func visitorKeepsNoPacketState(w *World, r *Report, prop string) {
+	rule := prop + "/visitor-keeps-no-packet-state"
+	n := 0
+	bad := 0
+	for _, fn := range parsePhaseFuncs(w) {
+		if fn.Pkg != w.Parser || recvNamedCore(fn) != "PacketDslVisitorImpl" || len(fn.Params) == 0 {
+			continue
+		}
+		n++
+		forEachInstr(fn, func(_ *ssa.BasicBlock, ins ssa.Instruction) {
+			st, ok := ins.(*ssa.Store)
+			if !ok {
+				return
+			}
+			fa, ok := st.Addr.(*ssa.FieldAddr)
+			if !ok {
+				return
+			}
+			base := stripIdentity(fa.X)
+			if sv := cellSingleValue(base); sv != nil {
+				base = sv
+			}
+			if base != ssa.Value(fn.Params[0]) {
+				return
+			}
+			// restoring what was there: the value is a load of the same member
+			if ld, ok := stripIdentity(st.Val).(*ssa.UnOp); ok && ld.Op == token.MUL {
+				if fa2, ok := ld.X.(*ssa.FieldAddr); ok && fa2.Field == fa.Field && stripIdentity(fa2.X) == base {
+					return
+				}
+			}
+			_, fname, _, _ := fieldOf(fa)
+			bad++
+			r.fail(rule, fmt.Sprintf("%s assigns no member of the visitor (%s)", fnKey(fn), fname), w.instrPos(ins), "a routine that runs during the tree walk assigns the visitor's own member "+fname+": the walk is re-entered for inline objects, the nested visit replaces the value and the enclosing packet goes on with the wrong one (its tables are lost or mixed with the inline object's)")
+		})
+	}
+	if bad == 0 {
+		r.pass(rule, "the visiting routines assign no member of the visitor", "internal/parser/packet_dsl_parser.go", fmt.Sprintf("%d routines", n))
+	}
+}
+
+// <prop>/fields-with-their-packet: where a routine is handed a packet together with a list of fields to work through, the list is
+// that packet's own (`f(p, p.Fields)`, `f(q.RefPacket, q.RefPacket.Fields)`): names the routine derives from the packet (factories,
+// registries, tables keyed by the packet) then belong to the fields it walks. `f(p, inner.RefPacket.Fields)` pairs the fields of an
+// inline object with the enclosing packet.
+func fieldsWithTheirPacket(w *World, wc *wireCtx, r *Report, prop string) {
+	rule := prop + "/fields-with-their-packet"
+	n := 0
+	for _, ga := range anchorTable {
+		for _, fn := range wc.anchors[ga.Lang]["own"] {
+			cnt := 0
+			forEachInstr(fn, func(_ *ssa.BasicBlock, ins ssa.Instruction) {
+				c, ok := ins.(ssa.CallInstruction)
+				if !ok {
+					return
+				}
+				g := c.Common().StaticCallee()
+				if g == nil || !w.isSubjectFunc(g) {
+					return
+				}
+				var pk ssa.Value
+				var lists []ssa.Value
+				for _, a := range c.Common().Args {
+					if pt, isPtr := a.Type().Underlying().(*types.Pointer); isPtr && modelTypeName(pt.Elem()) == "Packet" {
+						pk = a
+					}
+					if sl, isSl := a.Type().Underlying().(*types.Slice); isSl && isFieldPtr(sl.Elem()) {
+						lists = append(lists, a)
+					}
+				}
+				if pk == nil || len(lists) == 0 {
+					return
+				}
+				for _, l := range lists {
+					ld, ok := stripIdentity(l).(*ssa.UnOp)
+					if !ok || ld.Op != token.MUL {
+						continue
+					}
+					fa, ok := ld.X.(*ssa.FieldAddr)
+					if !ok {
+						continue
+					}
+					if tn, fname, _, _ := fieldOf(fa); tn != "Packet" || fname != "Fields" {
+						continue
+					}
+					n++
+					cnt++
+					key := fmt.Sprintf("%s: %s hands %s a packet and that packet's own fields #%d", ga.Lang, fnKey(fn), fnKey(g), cnt)
+					if sameValue(fa.X, pk) || sameCellValue(fa.X, pk) || keyPath(fa.X) == keyPath(pk) && keyPath(pk) != "expr" && keyPath(pk) != "var" {
+						r.pass(rule, key, w.instrPos(ins), "")
+					} else {
+						r.fail(rule, key, w.instrPos(ins), "the field list handed over is the Fields of a different packet than the packet handed over with it: what the callee names after the packet (factories, registries) is attached to fields that are not that packet's")
+					}
+				}
+			})
+		}
+	}
+	if n == 0 {
+		r.pass(rule, "calls with a packet and a field list found", "", "no generator routine is handed a packet together with a field list")
 	}
 }
